@@ -29,7 +29,6 @@ inductive Err where
   | index        -- IndexError (block or mask outside the grid)
   | outOfFuel    -- fuel of the outer loop exhausted (never happens: theorem)
   | tape         -- tape does not fit the run (wrong number of entries, or a draw outside the generator's contract)
-  | lenScalar    -- `len()` of a 0-d tensor (a mask with exactly one index, after `squeeze()`)
 deriving DecidableEq, Repr
 
 /-- `(r.drop a).take n` = python `r[a:a+n]` -/
@@ -215,7 +214,7 @@ def blockSize (c : Cfg) (h0 w0 : Nat) : Nat × Nat := (min h0 (c.H - 1), min w0 
 def step (counter : Int) : Int × Int := (counter + 1, counter + 1)
 
 structure Block where
-  idx : List Nat          -- `mask.flatten().nonzero().squeeze()`
+  idx : List Nat          -- `mask.flatten().nonzero().squeeze(1)`
   compl : List Bool       -- `mask_complement`, flattened
 deriving DecidableEq, Repr
 
@@ -244,13 +243,9 @@ def samplePreds (c : Cfg) (h w : Nat) : Nat → List Nat → Except Err (List Bl
   | n + 1, top :: left :: tape =>
     -- contract of `rng.integers(0, H - h)`, `rng.integers(0, W - w)`
     if top < c.H - h ∧ left < c.W - w then
-      let b := sampleBlock c h w top left
-      -- `min(min_keep_pred, len(mask))`: `len()` of a squeezed one-element index tensor raises
-      if b.idx.length = 1 then .error .lenScalar
-      else
-        match samplePreds c h w n tape with
-        | .error e => .error e
-        | .ok (bs, rest) => .ok (b :: bs, rest)
+      match samplePreds c h w n tape with
+      | .error e => .error e
+      | .ok (bs, rest) => .ok (sampleBlock c h w top left :: bs, rest)
     else .error .tape
   | _ + 1, _ => .error .tapeEnd
 
@@ -261,11 +256,9 @@ def sampleEncs (c : Cfg) (h w : Nat) (regions : List (List Bool)) : Nat → List
     match constrainedLoop c h w regions 0 tape with
     | .error e => .error e
     | .ok (idx, t, rest) =>
-      if idx.length = 1 then .error .lenScalar
-      else
-        match sampleEncs c h w regions n rest with
-        | .error e => .error e
-        | .ok (ms, rest') => .ok ((idx, t) :: ms, rest')
+      match sampleEncs c h w regions n rest with
+      | .error e => .error e
+      | .ok (ms, rest') => .ok ((idx, t) :: ms, rest')
 
 structure SampleMasks where
   preds : List Block
